@@ -2093,6 +2093,67 @@ theorem policyIteration_chain_fixed (hfix : AITB.Gen.C01.greedyTrueMaxFirst = tr
   unfold piValues
   exact greedyRow_near_max m.A hA (st.qfun.get s) B (fun i hi => hB s i hs hi) a hne
 
+theorem greedyRowScan_nonneg (A : Nat) (hA : 0 < A) (q : Nat → Rat) (a : Nat) : 0 ≤ greedyRowScan A q a := by
+  obtain ⟨c, hc1, _, hx⟩ := greedyRowScan_form A hA q
+  rcases hx a with h0 | h1
+  · rw [h0]
+  · rw [h1]
+    have : (0 : Rat) < c := by exact_mod_cast hc1
+    exact le_of_lt (one_div_pos.mpr this)
+
+/-- the greedy matrix is a stochastic matrix if the source has the repaired shape, or (as found) if every row's ties are transitive -/
+theorem greedyPolicy_valid (m : MDP) (hA : 0 < m.A) (q : Mat)
+    (h : AITB.Gen.C01.greedyTrueMaxFirst = true ∨ ∀ s, s < m.S → TiesTransitive (q.get s) (m.A - 1)) :
+    ValidPi m (greedyPolicy m.S m.A q).get := by
+  have key : ∀ s, s < m.S → (∀ a, 0 ≤ greedyRow m.A (q.get s) a) ∧ sumTo m.A (greedyRow m.A (q.get s)) = 1 := by
+    intro s hs
+    by_cases hf : AITB.Gen.C01.greedyTrueMaxFirst = true
+    · exact greedyRow_valid_of_trueMax hf m.A hA (q.get s)
+    · have hH : ∀ s, s < m.S → TiesTransitive (q.get s) (m.A - 1) := by
+        rcases h with h | h
+        · exact absurd h hf
+        · exact h
+      have e : greedyRow m.A (q.get s) = greedyRowScan m.A (q.get s) := by
+        funext a; simp [greedyRow, hf]
+      rw [e]
+      exact ⟨greedyRowScan_nonneg m.A hA (q.get s), greedyRowScan_sum_one_of_transitive m.A hA (q.get s) (hH s hs)⟩
+  refine ⟨?_, ?_⟩
+  · intro s a
+    by_cases hs : s < m.S
+    · by_cases ha : a < m.A
+      · unfold greedyPolicy
+        rw [mkMat_get _ hs ha]
+        exact (key s hs).1 a
+      · simp [greedyPolicy, mkMat, Mat.get, Array.getD, hs, ha]
+    · simp [greedyPolicy, mkMat, Mat.get, Array.getD, hs]
+  · intro s hs
+    rw [← (key s hs).2]
+    apply sumTo_congr
+    intro a ha
+    unfold greedyPolicy
+    rw [mkMat_get _ hs ha]
+
+/-- **policyIteration_chain_full.**  For every MDP, horizon and tolerance: if the modelled loop terminates, then `V = max_a Q` of the returned Q
+    satisfies the optimality equation within γ(ε + 2·tieSlack B) — unconditionally once the source has the repaired `getPolicy`, and for the
+    source as found whenever the returned Q has no tie chain (the `_partial` form; `greedyRowScan_chain_counterexample` shows the hypothesis is needed). -/
+theorem policyIteration_chain_full (m : MDP) (rep : Rep) (hrep : RepOK m rep) (hA : 0 < m.A) (hγ0 : 0 ≤ m.γ) (hT : ValidT m)
+    (h : Nat) (hh : 0 < h) (tol : Rat) (htol : useTolerance tol = false ∨ 0 < tol)
+    (hA2 : (m.A : Rat) * m.A * AITB.Gen.equalToleranceSmall < 1)
+    (fuel : Nat) (st : PIState) (hres : policyIteration m rep h tol fuel = some st)
+    (hties : AITB.Gen.C01.greedyTrueMaxFirst = true ∨ ∀ s, s < m.S → TiesTransitive (st.qfun.get s) (m.A - 1))
+    (B : Rat) (hB : ∀ s a, s < m.S → a < m.A → |st.qfun.get s a| ≤ B) :
+    ∃ ε : Rat, 0 ≤ ε ∧
+      ∀ s, s < m.S → |bellman m (piValues m st.qfun) s - piValues m st.qfun s| ≤ m.γ * (ε + 2 * tieSlack B) := by
+  have hvalid := greedyPolicy_valid m hA st.qfun hties
+  obtain ⟨prev, _, ε, hε, _, hall⟩ := policyIteration_chain m rep hrep hA hγ0 hT h hh tol htol hA2 fuel st hres hvalid
+  refine ⟨ε, hε, ?_⟩
+  apply hall (2 * tieSlack B)
+  intro s a hs ha hne
+  unfold greedyPolicy at hne
+  rw [mkMat_get _ hs ha] at hne
+  unfold piValues
+  exact greedyRow_near_max m.A hA (st.qfun.get s) B (fun i hi => hB s i hs hi) a hne
+
 /-! ### planners agree, without assuming that a fixed point exists -/
 
 /-- one-sided LP bound against an *approximate* solution: a δ-feasible point lies above any W with ‖BW − W‖∞ ≤ r up to (δ+r)/(1−γ) -/
